@@ -129,6 +129,7 @@ def get_intersecting_periods(low, high, period="day"):
 
 
 def sanitize_date(date_string):
+    date_string = sanitize_spaces(date_string)
     date_string = RE_SANITIZE_SKIP.sub(" ", date_string)
     date_string = RE_SANITIZE_RUSSIAN.sub(
         r"\1 ", date_string
